@@ -418,7 +418,8 @@ class ConcurrentExecutor(ABC, Generic[CallableType, ResultType]):
             config=ChildConfig(
                 serdes=self.item_serdes or self.serdes,
                 sub_type=self.sub_type_iteration,
-                summary_generator=self.summary_generator,
+                # no summary_generator: self.summary_generator summarises the whole BatchResult,
+                # an oversized item result is recorded with an empty summary and ReplayChildren
             ),
         )
         return result
